@@ -25,13 +25,13 @@ func (m *MajorityBiasListener) Spec_OnCriterionAdded(
 	generator utils.ValueGenerator,
 ) model.AddedCriterionParams {
 	wParams := params.(MajorityHeuristicParams)
-	newWeight := model.NewCriterionValue(&wParams.Weights, referenceCriterion, &generator)
-	return model.SingleWeight(criterion, newWeight)
+	newWeight := model.Spec_NewCriterionValue(&wParams.Weights, referenceCriterion, &generator)
+	return model.Spec_SingleWeight(criterion, newWeight)
 }
 
 func (m *MajorityBiasListener) Spec_OnCriteriaRemoved(leftCriteria *model.Criteria, params model.MethodParameters) model.MethodParameters {
 	wParams := params.(MajorityHeuristicParams)
-	leftWeights := wParams.Weights.PreserveOnly(leftCriteria)
+	leftWeights := wParams.Weights.Spec_PreserveOnly(leftCriteria)
 	return MajorityHeuristicParams{
 		Weights:                    *leftWeights,
 		CurrentChoice:              wParams.CurrentChoice,
@@ -43,14 +43,14 @@ func (m *MajorityBiasListener) Spec_OnCriteriaRemoved(leftCriteria *model.Criter
 
 func (m *MajorityBiasListener) Spec_RankCriteriaAscending(params *model.DecisionMakingParams) *model.WeightedCriteria {
 	wParams := params.MethodParameters.(MajorityHeuristicParams)
-	return params.Criteria.SortByWeights(wParams.Weights)
+	return params.Criteria.Spec_SortByWeights(wParams.Weights)
 }
 
 func (m *MajorityBiasListener) Spec_Merge(params model.MethodParameters, addition model.MethodParameters) model.MethodParameters {
 	oldParams := params.(MajorityHeuristicParams)
 	newParams := addition.(model.WeightType)
 	return MajorityHeuristicParams{
-		Weights:                    *oldParams.Weights.Merge(&newParams.Weights),
+		Weights:                    *oldParams.Weights.Spec_Merge(&newParams.Weights),
 		CurrentChoice:              oldParams.CurrentChoice,
 		RandomSeed:                 oldParams.RandomSeed,
 		RandomAlternativesOrdering: oldParams.RandomAlternativesOrdering,
